@@ -586,6 +586,14 @@ def translate(ctx):
         "end Pya.C12.Gen\n"
     ) % ", ".join("(%s, %s, %s)" % (_lean_str(d), "true" if rec else "false", "true" if guarded else "false") for d, rec, guarded in routes)
     lean.write_if_changed(os.path.join(lean.LEAN, "PyaModel", "Generated", "TfrRoutes.lean"), rtext)
+    from pyanalyze import format_strings
+    rx = format_strings._FORMAT_STRING_REGEX
+    if not isinstance(rx, str) or "conversion_type" not in rx:
+        raise ValueError("format_strings._FORMAT_STRING_REGEX is no longer the verbose pattern text")
+    lean.write_if_changed(os.path.join(lean.LEAN, "PyaModel", "Generated", "FormatRegexC12.lean"),
+                          "/-! Regenerated by harness/props/c12.py `translate` from the live pyanalyze; do not edit. -/\n"
+                          "namespace Pya.C12.Gen\n\n/-- `pyanalyze.format_strings._FORMAT_STRING_REGEX` (source text) -/\n"
+                          "def formatStringRegex : String := %s\n\nend Pya.C12.Gen\n" % _lean_str(rx))
     sites, unguarded = fold_sites()
     if len(sites) < 10:
         raise ValueError("fold-site scan found only %d try blocks: the scanned files changed shape" % len(sites))
